@@ -1,6 +1,7 @@
 SPECIFICATION Spec
 CONSTANTS
   StepRecovery = TRUE
+  FixAfterRemove = FALSE
   RCrashes = 0
   Order <- Two
   MarkersFirst = TRUE
